@@ -396,6 +396,9 @@ def stack(arrays, axis=None, keys=None, align=False, **kwargs):
         kwargs['strict'] = True
         arrays = align_(arrays, **kwargs)
 
+    # match dimensions by name, not by position
+    arrays = [a if a.dims == arrays[0].dims or set(a.dims) != set(arrays[0].dims) else a.transpose(arrays[0].dims) for a in arrays]
+
     # make it a numpy array
     data = [a.values for a in arrays]
     data = np.array(data)
